@@ -1,5 +1,6 @@
 import Verif.Proofs.C09HtmlRaw
 import Verif.Proofs.HtmlWs
+import Verif.Proofs.C09HtmlRelex
 /-!
 # C09 / HTML — the content that the model of html.go writes into a raw-text element does not end the element early
 -/
@@ -10,7 +11,7 @@ open Verif.Model.Html Verif.Proofs.HtmlWs
 /-- the bytes written for a text token inside a raw-text element (`textMode = 1`) -/
 def rawOut (sub : Sub) (st : St) (data : List Char) : List Char :=
   if hashIs st.rawTag "style" || hashIs st.rawTag "script" || hashIs st.rawTag "iframe" then
-    callSub sub (rawMime st.rawTag st.rawMediatype) false data
+    rawTextOut sub st.rawTag st.rawMediatype data
   else data
 
 theorem step_raw_out (o : Opts) (ext : Ext) (sub : Sub) (st : St) (data : List Char) (tmpl : Bool)
@@ -28,11 +29,9 @@ theorem step_raw_out (o : Opts) (ext : Ext) (sub : Sub) (st : St) (data : List C
       split <;> exact ⟨_, rfl⟩
     · split at h2 <;> simp at h2
 
-/-- **contract on the sub-minifier** (C11 hands the content of `script`/`style`/`iframe` to it): its output contains an
-    appropriate end tag of the embedding element only if its input does, and for `script` a `<!--` only if its input
-    does.  Discharged for the real minifiers by the harness (`c09-html-raw`: JS `<\/script` escaping of commit 1f79000,
-    CSS strings/urls with `</style`), NOT by a theorem; it is FALSE for the real JS minifier in the escaped states
-    (K-C09-HTML-8) and for the HTML minifier on iframe content (K-C09-HTML-9) — see `docs/C09-html.md`. -/
+/-- (kept for the JS slice, `Proofs/C09JsEmbed.lean`) a sub-minifier that creates neither an appropriate end tag of the
+    embedding element nor `<!--`.  html.go no longer RELIES on this (1557146 re-lexes the result): see
+    `html_rawtext_end_stable_partial`; `html_rawtext_end_stable_subkeeps` is the statement in these terms. -/
 def SubKeeps (tag : List Char) (sub : Sub) : Prop :=
   ∀ f, sub = some f → ∀ (mime : List Char) (inline : Bool) (p : List Char),
     (hasEndTag tag p = false → hasEndTag tag (f mime inline p) = false) ∧
@@ -49,15 +48,76 @@ def html_rawtext_end_stable_full : Prop :=
   ∀ (m : M) (tag p : List Char), ReadsContentOf m tag → goodRawTag tag = true → hasEndTag tag p = false →
     runO m (p ++ '<' :: '/' :: (tag ++ ['>'])) = chs m.mode.refs p ++ [.endTag tag]
 
-/-- **html_rawtext_end_stable_partial.**  For every option set, external table, state of the model inside a raw-text
-    element `tag = st.rawTag` (script, style, iframe, textarea — `textMode = 1`), text token `data` and every
-    sub-minifier that satisfies `SubKeeps tag` (`none`: the content passes through, this is C03 `raw_untouched`): if the
-    token's data contains no appropriate end tag of the element (lexer contract: the lexer ended the token in front of
-    the first one) and, for `script`, no `<!--` (GUARD: the script-data-escaped states), then what the model writes,
-    `out`, has the same two properties, and a tokenizer of the HTML standard that is reading the content of that element
-    (RCDATA, RAWTEXT or script data, last start tag `tag`) emits `out` as character tokens byte for byte and takes the
-    `</tag>` that follows as the element's end tag: the element neither ends early nor swallows what follows. -/
+/-- what the model writes into a raw-text element is read back by the minifier's lexer as exactly that content — whatever
+    the sub-minifier returned (html.go 1557146 keeps the original bytes otherwise) -/
+theorem rawOut_relex (sub : Sub) (st : St) (data : List Char)
+    (hrl : Verif.Model.Html.rawTextEndsAtEnd st.rawTag data = true) :
+    Verif.Model.Html.rawTextEndsAtEnd st.rawTag (rawOut sub st data) = true := by
+  unfold rawOut
+  split
+  · unfold rawTextOut
+    cases sub with
+    | none => exact hrl
+    | some f =>
+      simp only
+      split
+      · next h => exact h
+      · exact hrl
+  · exact hrl
+
+/-- **html_rawtext_end_stable_partial** (after html.go 1557146: NO hypothesis about the sub-minifier).  For every option
+    set, external table, EVERY sub-minifier, model state inside a raw-text element `tag = st.rawTag` (script, style, iframe,
+    textarea — `textMode = 1`) and text token `data` of the lexer (contract: `rawTextEndsAtEnd tag data` — the lexer itself
+    delivered `data` as the text between `<tag>` and `</tag>`): what the model writes, `out`, is again read back by the lexer
+    as exactly the content (`rawTextEndsAtEnd tag out`: the second pass sees the same token), and — GUARD for `script` only:
+    `out` holds no `<!--` (inside an escaped section the lexer's rules are weaker than the standard's,
+    `rawTextEndsAtEnd_script_counterexample`; real-code instance: K-C09-HTML-2, second form) — `out` holds no appropriate end
+    tag of the HTML standard, a tokenizer of the standard reading the content of that element emits `out` as character tokens
+    byte for byte and takes the `</tag>` that follows as the element's end tag. -/
 theorem html_rawtext_end_stable_partial (o : Opts) (ext : Ext) (sub : Sub) (st : St) (data : List Char)
+    (rest : List HTok) (h1 : st.dropEnd = false) (h2 : textMode st false = 1)
+    (hg : goodRawTag st.rawTag = true)
+    (hrl : Verif.Model.Html.rawTextEndsAtEnd st.rawTag data = true)
+    (hc : st.rawTag = "script".toList → hasInfix commentOpen (rawOut sub st data) = false) :
+    ∃ st' out, Verif.Model.Html.step o ext sub st (.text data false) rest = .ok (st', out) ∧
+      Verif.Model.Html.rawTextEndsAtEnd st.rawTag out = true ∧
+      hasEndTag st.rawTag out = false ∧
+      ∀ (m : M) (more : List Char), ReadsContentOf m st.rawTag →
+        runO m (out ++ '<' :: '/' :: (st.rawTag ++ ['>']) ++ more) =
+          chs m.mode.refs out ++ [.endTag st.rawTag] ++
+            runO (emitTag m { isEnd := true, name := st.rawTag } false).1 more := by
+  obtain ⟨st', hstep⟩ := step_raw_out o ext sub st data false rest h1 h2
+  have hre := rawOut_relex sub st data hrl
+  have hne := Verif.Proofs.C09HtmlRelex.relex_noEndTag st.rawTag _ hg hc hre
+  refine ⟨st', _, hstep, hre, hne, ?_⟩
+  intro m more ⟨hs, hm, hl, hsc⟩
+  have hno : noOpen m (rawOut sub st data) = true := by
+    unfold noOpen
+    cases hmd : (m.mode != .script) with
+    | true => rfl
+    | false =>
+      have : m.mode = .script := by simpa using hmd
+      simp [hc (hsc this)]
+  exact (raw_text_then_end_tag m hs hm st.rawTag _ more hl hg hne hno).1
+
+/-- what is written is the token's data or the sub-minifier's result -/
+theorem rawOut_cases (sub : Sub) (st : St) (data : List Char) :
+    rawOut sub st data = data ∨ ∃ f, sub = some f ∧ rawOut sub st data = f (rawMime st.rawTag st.rawMediatype) false data := by
+  unfold rawOut
+  split
+  · unfold rawTextOut
+    cases sub with
+    | none => exact Or.inl rfl
+    | some f =>
+      simp only
+      split
+      · exact Or.inr ⟨f, rfl, rfl⟩
+      · exact Or.inl rfl
+  · exact Or.inl rfl
+
+/-- the statement in terms of `SubKeeps` (hypotheses on the token's data in the standard's terms): still true for the
+    model with the re-lex — the result of the sub-minifier is used or the data is kept, both are fine -/
+theorem html_rawtext_end_stable_subkeeps (o : Opts) (ext : Ext) (sub : Sub) (st : St) (data : List Char)
     (rest : List HTok) (h1 : st.dropEnd = false) (h2 : textMode st false = 1)
     (hg : goodRawTag st.rawTag = true) (hk : SubKeeps st.rawTag sub)
     (hd : hasEndTag st.rawTag data = false)
@@ -72,14 +132,11 @@ theorem html_rawtext_end_stable_partial (o : Opts) (ext : Ext) (sub : Sub) (st :
   obtain ⟨st', hstep⟩ := step_raw_out o ext sub st data false rest h1 h2
   have hout : hasEndTag st.rawTag (rawOut sub st data) = false ∧
       (st.rawTag = "script".toList → hasInfix commentOpen (rawOut sub st data) = false) := by
-    unfold rawOut
-    split
-    · cases hsub : sub with
-      | none => exact ⟨by simpa [callSub] using hd, by simpa [callSub] using hc⟩
-      | some f =>
-        have := hk f hsub (rawMime st.rawTag st.rawMediatype) false data
-        exact ⟨by simpa [callSub] using this.1 hd, fun e => by simpa [callSub] using this.2 (hc e)⟩
-    · exact ⟨hd, hc⟩
+    rcases rawOut_cases sub st data with e | ⟨f, hf, e⟩
+    · rw [e]; exact ⟨hd, hc⟩
+    · rw [e]
+      have := hk f hf (rawMime st.rawTag st.rawMediatype) false data
+      exact ⟨this.1 hd, fun e' => this.2 (hc e')⟩
   refine ⟨st', _, hstep, hout.1, hout.2, ?_⟩
   intro m more ⟨hs, hm, hl, hsc⟩
   have hno : noOpen m (rawOut sub st data) = true := by
@@ -94,8 +151,9 @@ theorem html_rawtext_end_stable_partial (o : Opts) (ext : Ext) (sub : Sub) (st :
 /-- **html_rawtext_end_stable_counterexample.**  Without the `<!--` guard the statement is false in script data:
     after `<!--<script>` the tokenizer is in the script-data-double-escaped state, where `</script>` does not end the
     element (it only leaves that state).  The lexer of the minifier implements these states too, so a token with this
-    data is always followed by more text in the INPUT; the defect K-C09-HTML-8 is that the JS minifier can produce such
-    content from content that was balanced. -/
+    data is always followed by more text in the INPUT, and since 1557146 html.go re-lexes what the sub-minifier returns
+    (K-C09-HTML-8 fixed); what remains is the difference between the lexer's and the standard's rules INSIDE an escaped
+    section (`rawTextEndsAtEnd_script_counterexample`). -/
 theorem html_rawtext_end_stable_counterexample : ¬ html_rawtext_end_stable_full := by
   intro h
   have := h { mode := .script, last := "script".toList } "script".toList "<!--<script>".toList
